@@ -1,5 +1,9 @@
-(* Model/WfOps.v — the "ordinary POSIX preconditions" of property C01 as a computable predicate
-   on the CURRENT state of the in-memory filesystem and the next call.  Definitions only. *)
+(* Model/WfOps.v — the class of portable calls of property C01 as a computable predicate on the
+   CURRENT state of the in-memory filesystem and the next call: wf_op = wf_op_ord || wf_below.
+   wf_op_ord: the "ordinary POSIX preconditions" (the call is carried out, or fails with
+   EEXIST / ENOENT — Rename of a missing source also with ENOTDIR when its directory exists and the
+   target passes through a regular file, as rename(2) answers); wf_below: a creating call whose name passes through a regular file (refused
+   with ENOTDIR on both sides, nothing changes).  Definitions only. *)
 From AF Require Import Lib.Bytes Lib.Path Lib.Ops Gen.Consts Model.MemFile Model.MemFs.
 Local Open Scope Z_scope.
 
@@ -35,7 +39,14 @@ Definition flag_ok (flag : Z) : bool :=
   (Z.land flag (Z.lnot flag_mask) =? 0) && negb (Z.land flag memfs_access_mask =? memfs_access_mask)
   && negb (flag_has flag o_trunc && (Z.land flag memfs_access_mask =? 0)).
 
-Definition wf_op (s : mst) (o : op) : bool :=
+(* k passes through a regular file: some proper ancestor of k is one.  In a state satisfying the
+   invariant of C01 nothing exists below a regular file, so this says: walking up from k, the first
+   name that exists is a regular file (Proofs/MemFsBelow.v, through_file_nearest). *)
+Definition through_file (s : mst) (k : str) : bool :=
+  existsb (fun kv => below (fst kv) k && is_file_at s (fst kv)) (mdata s).
+
+(* ---- the ordinary POSIX preconditions: the calls that are carried out ---- *)
+Definition wf_op_ord (s : mst) (o : op) : bool :=
   match o with
   | Create p =>
       let k := normalize_path p in
@@ -78,6 +89,28 @@ Definition wf_op (s : mst) (o : op) : bool :=
   | HReadAt _ n _ => 0 <=? n
   | _ => true
   end.
+
+(* ---- creating below a regular file: the calls that are refused with ENOTDIR and change nothing
+        (memmap.go lockfreeBelowFile; the operating system answers the same).  The name to be created
+        passes through a regular file; for Rename the source exists and differs from the target. ---- *)
+Definition wf_below (s : mst) (o : op) : bool :=
+  match o with
+  | Create p | Mkdir p _ => wf_name p && through_file s (normalize_path p)
+  | MkdirAll p _ =>
+      (* in its clean spelling: os.MkdirAll splits the name itself and answers EEXIST, not ENOTDIR,
+         for a doubled separator right after the regular file ("/f//x"; finding F5, REPORT-c01p.md) *)
+      wf_name p && beqb p (normalize_path p) && through_file s (normalize_path p)
+  | OpenFile p flag _ => wf_name p && flag_ok flag && flag_has flag o_create && through_file s (normalize_path p)
+  | Rename p q =>
+      let old := normalize_path p in
+      let new := normalize_path q in
+      wf_name p && wf_name q && negb (beqb old s_slash) &&
+      match kind_at s old with Some _ => negb (beqb old new) && through_file s new | None => false end
+  | _ => false
+  end.
+
+(* the portable calls *)
+Definition wf_op (s : mst) (o : op) : bool := wf_op_ord s o || wf_below s o.
 
 (* every call is well-formed in the state reached so far *)
 Fixpoint wf_seq (s : mst) (ops : list op) : bool :=
